@@ -77,6 +77,7 @@ def run(rep, facts):
         r0 = ir.Resolver(body, opaque_mut_borrowed=True)
         cursors = set()
         nreads = 0
+        read_blocks = []
         for bi, blk in enumerate(body.blocks):
             t = blk["t"]
             cal = F.norm(t["func"].get("path", "")) if t["k"] == "call" else None
@@ -91,10 +92,16 @@ def run(rep, facts):
                         is_read = True
             if is_read:
                 nreads += 1
+                read_blocks.append(bi)
                 e = ir.peel(r0.operand(t["args"][0], (bi, -1)))
                 if e[0] == 'local':
                     cursors.add(e[1])
         head_ok = False
+        from .c17 import _dominators
+        dom = _dominators(body)
+
+        def len_site(x):
+            return x[3][1] if len(x) > 3 and isinstance(x[3], tuple) and len(x[3]) > 1 and isinstance(x[3][1], int) else None
         arith = []
         for bi, blk in enumerate(body.blocks):
             for si, st in enumerate(blk["st"]):
@@ -104,9 +111,16 @@ def run(rep, facts):
                 if op.startswith("Sub"):
                     a = ir.peel(r0.operand(st["rv"]["a"], (bi, si)))
                     c = ir.peel(r0.operand(st["rv"]["b"], (bi, si)))
-                    if a[0] == 'call' and a[1].endswith("::len") and is_data(a) and \
-                            c[0] == 'call' and c[1].endswith("::len") and ir.peel(c[2][0])[0] == 'local' and ir.peel(c[2][0])[1] in cursors:
+                    c_is_cursor = c[0] == 'call' and c[1].endswith("::len") and ir.peel(c[2][0])[0] == 'local' and ir.peel(c[2][0])[1] in cursors
+                    if a[0] == 'call' and a[1].endswith("::len") and is_data(a) and c_is_cursor:
                         head_ok = True
+                    # `let data_len = cur.len();` taken from the cursor itself *before* the two reads (it still spans all of the data there),
+                    # minus its length after them: the first length is measured in a block that comes before both reads, the second after
+                    if c_is_cursor and a[0] == 'call' and a[1].endswith("::len") and ir.peel(a[2][0])[0] == 'local' and ir.peel(a[2][0])[1] in cursors \
+                            and len(read_blocks) >= 2 and len_site(a) is not None and len_site(c) is not None:
+                        sa, sc = len_site(a), len_site(c)
+                        if all(sa in dom.get(rb_, ()) and sa != rb_ for rb_ in read_blocks) and all(rb_ in dom.get(sc, ()) and rb_ != sc for rb_ in read_blocks):
+                            head_ok = True
                 if op.startswith("Add") or op.startswith("Mul") or op.startswith("Shl"):
                     arith.append("%s@%d" % (op, st["sp"]["l"]))
         return nreads, cursors, head_ok, arith
